@@ -42,6 +42,10 @@ type Spec struct {
 	OSWriter bool
 	// RealObj: the object tool is pprof's own binutils wrapper (addr2line, nm, objdump from /usr/bin)
 	RealObj bool
+	// Path is the child's PATH (default: an empty directory, so that no viewer or tool is found)
+	Path string
+	// LineDelayMs: wait that long before handing pprof each interactive line after the first
+	LineDelayMs int
 	// Tools overrides the tool directories used with RealObj ("objdump:/dir,nm:/usr/bin,...")
 	Tools string
 }
@@ -81,7 +85,7 @@ func Run(spec Spec, timeout time.Duration) (*Result, error) {
 	cmd.Stdout, cmd.Stderr = &out, &errb
 	cmd.Env = append(os.Environ(), "HOME="+spec.Dir, "XDG_CONFIG_HOME="+filepath.Join(spec.Dir, "config"), "PPROF_TMPDIR="+filepath.Join(spec.Dir, "tmp"), "PPROF_BINARY_PATH="+filepath.Join(spec.Dir, "bin"), "TZ=UTC", "TMPDIR="+filepath.Join(spec.Dir, "tmp"),
 		// no external viewers (sensible-browser etc.) or tools: commands that need them must report an error
-		"PATH="+filepath.Join(spec.Dir, "nopath"))
+		"PATH="+pathOf(spec))
 	cmd.Dir = spec.Dir
 	if err := cmd.Start(); err != nil {
 		return nil, err
@@ -167,6 +171,13 @@ func listFiles(dir string, seen map[string]string) map[string]string {
 
 // the child's PATH is empty: tools are named by directory
 const realTools = "addr2line:/usr/bin,nm:/usr/bin,objdump:/usr/bin,llvm-symbolizer:/nonexistent"
+
+func pathOf(spec Spec) string {
+	if spec.Path != "" {
+		return spec.Path
+	}
+	return filepath.Join(spec.Dir, "nopath")
+}
 
 func toolsOf(spec Spec) string {
 	if spec.Tools != "" {
@@ -263,6 +274,9 @@ func Child(args []string) int {
 		}
 		ui.OnRead = func(i int) {
 			res.Reads++
+			if i > 0 && spec.LineDelayMs > 0 {
+				time.Sleep(time.Duration(spec.LineDelayMs) * time.Millisecond)
+			}
 			if i == 0 {
 				// pprof owns the fetched profile while loading it (drop_frames, mapping clean-up);
 				// the pristine state is the one at the first prompt
